@@ -18,8 +18,11 @@ import (
 
 type udpServer struct {
 	W       *simnet.World
-	Sock    *simnet.UDPConn // the shared listening socket
+	Sock    *simnet.UDPConn // the (first) listening socket
 	PC      net.PacketConn  // the virtual handle given to the handler
+	Socks   []*simnet.UDPConn // all listening sockets served by the one handler
+	PCs     []net.PacketConn
+	nDone   int
 	M       *RecMetrics
 	Ciphers service.CipherList
 	Done    bool
@@ -34,6 +37,9 @@ type udpServerOpts struct {
 	// Direct hands the simulated socket itself to the handler (no shared
 	// listener in between), so that the socket's read log is the handler's.
 	Direct bool
+	// Listeners > 1: several packet listeners (ports 9000, 9001, ...) served by
+	// the same PacketHandler, as a service with several UDP listeners does.
+	Listeners int
 }
 
 func startUDPServer(rc *RunCtx, w *simnet.World, o udpServerOpts) *udpServer {
@@ -55,18 +61,47 @@ func startUDPServer(rc *RunCtx, w *simnet.World, o udpServerOpts) *udpServer {
 	}
 	s.PC = pc
 	s.Sock = w.UDPBound(proxyIP, 9000)
+	s.Socks = []*simnet.UDPConn{s.Sock}
+	s.PCs = []net.PacketConn{pc}
 	h := service.NewPacketHandler(o.Timeout, s.Ciphers, s.M, &ssm{s.M, "udp"})
 	if o.Validator != nil {
 		h.SetTargetIPValidator(o.Validator)
 	}
-	simrt.GoNamed("HandlePacket", func() {
-		h.Handle(pc)
-		s.Done = true
-	})
+	lm := service.NewListenerManager()
+	for i := 1; i < o.Listeners; i++ {
+		pc2, err := lm.ListenPacket(net.JoinHostPort(proxyIP.String(), fmt.Sprint(9000+i)))
+		if err != nil {
+			panic(err)
+		}
+		s.PCs = append(s.PCs, pc2)
+		s.Socks = append(s.Socks, w.UDPBound(proxyIP, 9000+i))
+	}
+	n := len(s.PCs)
+	for i, p := range s.PCs {
+		p := p
+		simrt.GoNamed(fmt.Sprintf("HandlePacket-%d", i), func() {
+			h.Handle(p)
+			s.nDone++
+			s.Done = s.nDone == n
+		})
+	}
 	return s
 }
 
-func (s *udpServer) Stop() { s.PC.Close() }
+func (s *udpServer) Stop() {
+	for _, p := range s.PCs {
+		p.Close()
+	}
+}
+
+func (s *udpServer) isListen(c *simnet.UDPConn) bool {
+	for _, x := range s.Socks {
+		if x == c {
+			return true
+		}
+	}
+	return false
+}
 
 // ---------- datagram construction ----------
 
@@ -80,6 +115,7 @@ func packUDP(k *Key, plaintext []byte) []byte {
 }
 
 type uClient struct {
+	ls    int // which listener of the service this client talks to
 	idx   int
 	addr  *net.UDPAddr
 	sock  *simnet.UDPConn
@@ -195,7 +231,12 @@ func runUDP(rc *RunCtx, which string) {
 			w.UDPWriteErrBound = []int{100, 400}[F.Draw(2)] // replies to the client fail now and then
 		}
 	}
-	srv := startUDPServer(rc, w, udpServerOpts{Keys: cfg, Timeout: 5 * time.Minute, Metrics: m})
+	nL := 1
+	if which != "c16" && G.Draw(3) == 0 {
+		nL = 2 // two listeners of one service share the handler
+		simrt.Probe("two_listeners_one_handler")
+	}
+	srv := startUDPServer(rc, w, udpServerOpts{Keys: cfg, Timeout: 5 * time.Minute, Metrics: m, Listeners: nL})
 	r := &udpRun{which: which, rc: rc, w: w, srv: srv, keys: cfg, tspecs: map[string]*tSpec{}, specs: map[string]*uSpec{}}
 	// targets
 	nT := 1 + G.Draw(3)
@@ -283,7 +324,7 @@ func runUDP(rc *RunCtx, which string) {
 		if err != nil {
 			panic(err)
 		}
-		c := &uClient{idx: i, addr: addr, sock: sock, key: U[G.Draw(len(U))]}
+		c := &uClient{idx: i, addr: addr, sock: sock, key: U[G.Draw(len(U))], ls: G.Draw(nL)}
 		if G.Draw(3) != 0 {
 			c.key = cfg[G.Draw(len(cfg))]
 		}
@@ -320,7 +361,7 @@ func runUDP(rc *RunCtx, which string) {
 				psz = []int{8000, 60000, 65000}[G.Draw(3)]
 			}
 			s.payload = append([]byte(s.id+"|"), payload(G, psz)...)
-			if psz == 0 && G.Draw(2) == 0 {
+			if psz == 0 && G.Draw(2) == 0 && nL == 1 {
 				s.payload = nil // truly empty payload (address only); identified by absence of id
 				s.id = s.id + "-empty"
 			}
@@ -372,7 +413,7 @@ func runUDP(rc *RunCtx, which string) {
 		simrt.GoNamed(fmt.Sprintf("udp-client-%d", c.idx), func() {
 			for i, s := range c.specs {
 				js[i]()
-				c.sock.WriteToUDP(s.wire, &net.UDPAddr{IP: proxyIP, Port: 9000})
+				c.sock.WriteToUDP(s.wire, &net.UDPAddr{IP: proxyIP, Port: 9000 + c.ls})
 				s.rec = c.sock.LastSent
 			}
 		})
@@ -415,7 +456,11 @@ func (r *udpRun) check(which string) {
 		a    *assoc
 		call UCall
 	}
-	for _, rec := range srv.Sock.ReadLog {
+	var allReads []*simnet.DgramRec
+	for _, ls := range srv.Socks {
+		allReads = append(allReads, ls.ReadLog...) // one natmap per Handle call; a client uses one listener
+	}
+	for _, rec := range allReads {
 		s := byRec[rec]
 		if s == nil {
 			rc.Failf("harness:unknown-datagram-at-proxy", "proxy read a datagram the harness did not send")
@@ -469,7 +514,7 @@ func (r *udpRun) check(which string) {
 		if d.FromSock.Foreign {
 			continue
 		}
-		if d.FromSock == srv.Sock {
+		if srv.isListen(d.FromSock) {
 			replies = append(replies, d)
 			continue
 		}
@@ -482,7 +527,7 @@ func (r *udpRun) check(which string) {
 			// Empty payload carries no id. The handler forwards synchronously in
 			// its read loop, so the j-th outbound datagram is the j-th expected
 			// forward of the reference model.
-			if nOut < len(expOrder) && expOrder[nOut].payload == nil {
+			if len(srv.Socks) == 1 && nOut < len(expOrder) && expOrder[nOut].payload == nil {
 				s = expOrder[nOut]
 			}
 		}
@@ -536,7 +581,7 @@ func (r *udpRun) check(which string) {
 	// outbound sockets created
 	var outSocks []*simnet.UDPConn
 	for _, sk := range w.Socks {
-		if !sk.Foreign && sk != srv.Sock {
+		if !sk.Foreign && !srv.isListen(sk) {
 			outSocks = append(outSocks, sk)
 		}
 	}
